@@ -20,6 +20,8 @@ class C02(EgSpec):
     ]
 
     def evaluate(self, stream, case, impl_obs, model_obs, ctx):
+        if model_obs is None:
+            return [('note', 'checker-time-limit', 'the verified checker exceeded its per-case time limit on this history; not judged', {})]
         pc, pi, pm = core.sx_parse(case), core.sx_parse(impl_obs), core.sx_parse(model_obs)
         out = []
         e = eqm(pi)
